@@ -10,6 +10,7 @@
 import SkyllhModel.Model.LLH
 import SkyllhModel.Model.Grad
 import SkyllhModel.Model.ParamLayout
+import SkyllhModel.Model.GradState
 import SkyllhModel.Proofs.RealScalar
 import SkyllhModel.Generated.C02
 import Mathlib.Analysis.SpecialFunctions.Log.Deriv
@@ -1956,3 +1957,252 @@ example : (⟨3, true, true, [((fun t => t), [1, 0])], [[⟨fun t => t, fun _ =>
     constructor
     · exact C02.hasDerivAt_of_eq (hasDerivAt_id (1 : ℝ)) (fun y => rfl) (by simp)
     · exact C02.hasDerivAt_of_eq (hasDerivAt_const (1 : ℝ) (2 : ℝ)) (fun y => rfl) (by simp)
+
+/-! ## Deepening round: the state behind `calculate_ns_grad2` over every history -/
+
+open GradState
+
+namespace C02
+
+structure Abs where
+  sizes : List (ℕ × ℕ)
+  ev : Option (ℝ × List ℝ × List (List ℝ))
+
+def absStep (a : Abs) : Op ℝ → Abs
+  | .newTrial sizes => ⟨sizes, none⟩
+  | .evaluate ns f Xs => ⟨a.sizes, some (ns, f, Xs)⟩
+  | .evaluateFail _ => ⟨a.sizes, none⟩
+  | .grad2 _ => a
+
+def WT (J : ℕ) : Op ℝ → Prop
+  | .newTrial sizes => sizes.length = J
+  | .evaluate _ f Xs => f.length = J ∧ Xs.length = J
+  | .evaluateFail f => f.length = J
+  | .grad2 _ => True
+
+noncomputable def build (opa ns : ℝ) (f : List ℝ) (Xs : List (List ℝ)) (sizes : List (ℕ × ℕ)) : List (Single ℝ) :=
+  List.zipWith (fun (fX : ℝ × List ℝ) (sz : ℕ × ℕ) =>
+    (⟨some (fX.2.map (nsGradI opa (ns * fX.1))), sz.1, sz.2⟩ : Single ℝ)) (List.zip f Xs) sizes
+
+def Rel (opa : ℝ) (J : ℕ) (m : Multi ℝ) (a : Abs) : Prop :=
+  a.sizes.length = J ∧ m.singles.map (fun s => (s.N, s.nSel)) = a.sizes ∧
+  (∀ f', m.f = some f' → f'.length = J) ∧
+  match a.ev with
+  | some (ns, f, Xs) => f.length = J ∧ Xs.length = J ∧ m.f = some f ∧ m.singles = build opa ns f Xs a.sizes
+  | none => m.f = none ∨ (∃ s rest, m.singles = s :: rest ∧ s.cache = none)
+
+theorem rebuild (opa ns : ℝ) (singles : List (Single ℝ)) (f : List ℝ) (Xs : List (List ℝ))
+    (hf : f.length = singles.length) (hX : Xs.length = singles.length) :
+    List.zipWith (fun (fs : ℝ × Single ℝ) (X : List ℝ) =>
+        ({ fs.2 with cache := some (X.map (nsGradI opa (ns * fs.1))) } : Single ℝ)) (List.zip f singles) Xs
+      = build opa ns f Xs (singles.map (fun s => (s.N, s.nSel))) := by
+  unfold build
+  induction singles generalizing f Xs with
+  | nil =>
+    cases f with
+    | nil => simp
+    | cons _ _ => simp at hf
+  | cons s singles ih =>
+    cases f with
+    | nil => simp at hf
+    | cons fj f =>
+      cases Xs with
+      | nil => simp at hX
+      | cons X Xs =>
+        simp only [List.length_cons, Nat.add_right_cancel_iff] at hf hX
+        simp only [List.zip_cons_cons, List.zipWith_cons_cons, List.map_cons, List.cons.injEq]
+        exact ⟨trivial, ih f Xs hf hX⟩
+
+theorem build_sizes (opa ns : ℝ) (f : List ℝ) (Xs : List (List ℝ)) (sizes : List (ℕ × ℕ))
+    (hf : f.length = sizes.length) (hX : Xs.length = sizes.length) :
+    (build opa ns f Xs sizes).map (fun s => (s.N, s.nSel)) = sizes := by
+  unfold build
+  induction sizes generalizing f Xs with
+  | nil => simp
+  | cons sz sizes ih =>
+    cases f with
+    | nil => simp at hf
+    | cons fj f =>
+      cases Xs with
+      | nil => simp at hX
+      | cons X Xs =>
+        simp only [List.length_cons, Nat.add_right_cancel_iff] at hf hX
+        simp only [List.zip_cons_cons, List.zipWith_cons_cons, List.map_cons, List.cons.injEq]
+        exact ⟨trivial, ih f Xs hf hX⟩
+
+theorem rel_init (opa : ℝ) (J : ℕ) : Rel opa J (init J) ⟨List.replicate J (0, 0), none⟩ := by
+  refine ⟨by simp, by simp [init], ?_, ?_⟩
+  · intro f' h
+    simp [init] at h
+  · left
+    rfl
+
+theorem rel_step (opa : ℝ) (J : ℕ) (hJ : 0 < J) (m : Multi ℝ) (a : Abs) (op : Op ℝ) (hwt : WT J op)
+    (h : Rel opa J m a) : Rel opa J (step opa m op).1 (absStep a op) := by
+  obtain ⟨hlen, hsz, hfl, hev⟩ := h
+  have hsl : m.singles.length = J := by
+    have := congrArg List.length hsz
+    simpa [hlen] using this
+  cases op with
+  | newTrial sizes =>
+    simp only [WT] at hwt
+    refine ⟨hwt, by simp [step, absStep, List.map_map, Function.comp_def], by simpa [step] using hfl, ?_⟩
+    simp only [absStep, step]
+    right
+    cases sizes with
+    | nil => simp at hwt; omega
+    | cons sz sizes => exact ⟨_, _, rfl, rfl⟩
+  | evaluate ns f Xs =>
+    obtain ⟨hf, hX⟩ := hwt
+    have hb := rebuild opa ns m.singles f Xs (by omega) (by omega)
+    rw [hsz] at hb
+    refine ⟨hlen, ?_, ?_, ?_⟩
+    · simp only [step, absStep]
+      rw [hb]
+      exact build_sizes opa ns f Xs a.sizes (by omega) (by omega)
+    · intro f' hf'
+      simp only [step, Option.some.injEq] at hf'
+      rw [← hf']; exact hf
+    · simp only [absStep, step]
+      exact ⟨hf, hX, trivial, hb⟩
+  | evaluateFail f =>
+    simp only [WT] at hwt
+    refine ⟨hlen, ?_, ?_, ?_⟩
+    · simp only [step, absStep]
+      cases hs : m.singles with
+      | nil => rw [hs] at hsz; simpa using hsz
+      | cons s rest => rw [hs] at hsz; simpa using hsz
+    · intro f' hf'
+      simp only [step, Option.some.injEq] at hf'
+      rw [← hf']; exact hwt
+    · simp only [absStep, step]
+      right
+      cases hs : m.singles with
+      | nil => rw [hs] at hsl; simp at hsl; omega
+      | cons s rest => exact ⟨_, _, rfl, rfl⟩
+  | grad2 ns =>
+    exact ⟨hlen, hsz, hfl, hev⟩
+
+theorem rel_run (opa : ℝ) (J : ℕ) (hJ : 0 < J) (ops : List (Op ℝ)) (hwt : ∀ op ∈ ops, WT J op)
+    (m : Multi ℝ) (a : Abs) (h : Rel opa J m a) : Rel opa J (run opa m ops) (ops.foldl absStep a) := by
+  induction ops generalizing m a with
+  | nil => exact h
+  | cons op ops ih =>
+    simp only [run, List.foldl_cons]
+    exact ih (fun o ho => hwt o (by simp [ho])) _ _ (rel_step opa J hJ m a op (hwt op (by simp)) h)
+
+/-- what `calculate_ns_grad2(ns')` returns after a successful `evaluate(ns, f, Xs)` on a trial with sizes `sizes` -/
+noncomputable def grad2Spec (opa ns ns' : ℝ) (f : List ℝ) (Xs : List (List ℝ)) (sizes : List (ℕ × ℕ)) : List ℝ :=
+  List.zipWith (fun (fX : ℝ × List ℝ) (sz : ℕ × ℕ) =>
+    (-sumF ((fX.2.map (nsGradI opa (ns * fX.1))).map (fun x => x * x)) - bkgGrad2 sz.1 sz.2 (ns' * fX.1))
+      * (fX.1 * fX.1)) (List.zip f Xs) sizes
+
+theorem grad2Loop_build (opa ns ns' : ℝ) (f : List ℝ) (Xs : List (List ℝ)) (sizes : List (ℕ × ℕ))
+    (hf : f.length = sizes.length) (hX : Xs.length = sizes.length) :
+    grad2Loop ns' (List.zip f (build opa ns f Xs sizes)) = .ok (grad2Spec opa ns ns' f Xs sizes) := by
+  unfold build grad2Spec
+  induction sizes generalizing f Xs with
+  | nil => simp [grad2Loop]
+  | cons sz sizes ih =>
+    cases f with
+    | nil => simp at hf
+    | cons fj f =>
+      cases Xs with
+      | nil => simp at hX
+      | cons X Xs =>
+        simp only [List.length_cons, Nat.add_right_cancel_iff] at hf hX
+        simp only [List.zip_cons_cons, List.zipWith_cons_cons, grad2Loop, Single.grad2, ih f Xs hf hX]
+
+theorem grad2_of_rel_some (opa : ℝ) (J : ℕ) (m : Multi ℝ) (a : Abs) (h : Rel opa J m a)
+    (ns : ℝ) (f : List ℝ) (Xs : List (List ℝ)) (hev : a.ev = some (ns, f, Xs)) (ns' : ℝ) :
+    m.grad2 ns' = .ok (sumF (grad2Spec opa ns ns' f Xs a.sizes)) := by
+  obtain ⟨hlen, _, _, hm⟩ := h
+  rw [hev] at hm
+  obtain ⟨hf, hX, hmf, hs⟩ := hm
+  unfold Multi.grad2
+  rw [hmf, hs]
+  simp only [grad2Loop_build opa ns ns' f Xs a.sizes (by omega) (by omega)]
+
+theorem grad2_of_rel_none (opa : ℝ) (J : ℕ) (hJ : 0 < J) (m : Multi ℝ) (a : Abs) (h : Rel opa J m a)
+    (hev : a.ev = none) (ns' : ℝ) : ∃ e, m.grad2 ns' = .error e := by
+  obtain ⟨_, _, hfl, hm⟩ := h
+  rw [hev] at hm
+  unfold Multi.grad2
+  rcases hm with hnone | ⟨s, rest, hs, hc⟩
+  · exact ⟨.noWeights, by rw [hnone]⟩
+  · cases hmf : m.f with
+    | none => exact ⟨.noWeights, rfl⟩
+    | some f' =>
+      have := hfl f' hmf
+      cases f' with
+      | nil => simp at this; omega
+      | cons fj f' =>
+        refine ⟨.notEvaluated, ?_⟩
+        simp only [hs, List.zip_cons_cons, grad2Loop, Single.grad2, hc]
+
+theorem grad2Spec_eq_multiNsGrad2 (opa ns : ℝ) (f : List ℝ) (Xs : List (List ℝ)) (sizes : List (ℕ × ℕ))
+    (hsel : ∀ p ∈ List.zip Xs sizes, p.2.2 = p.1.length) :
+    sumF (grad2Spec opa ns ns f Xs sizes)
+      = multiNsGrad2 opa ns f (List.zipWith (fun X (sz : ℕ × ℕ) => (⟨sz.1, X, []⟩ : DS ℝ)) Xs sizes) := by
+  unfold grad2Spec multiNsGrad2
+  congr 1
+  induction sizes generalizing f Xs with
+  | nil => simp
+  | cons sz sizes ih =>
+    cases f with
+    | nil => simp
+    | cons fj f =>
+      cases Xs with
+      | nil => simp
+      | cons X Xs =>
+        have h1 := hsel (X, sz) (by simp)
+        simp only [List.zip_cons_cons, List.zipWith_cons_cons, List.cons.injEq]
+        refine ⟨?_, ih f Xs (fun p hp => hsel p (by simp [hp]))⟩
+        simp only [nsGrad2, List.map_map, Function.comp_def]
+        rw [← h1]
+
+end C02
+
+open C02 in
+/-- **`calculate_ns_grad2` over every history** of new trials, successful and failing evaluations and
+`calculate_ns_grad2` calls on one `MultiDatasetTCLLHRatio` (`J > 0` datasets, operations of matching shapes): if the
+last state-changing operation was a successful `evaluate(ns, f, Xs)` — no new trial and no failed evaluation since —
+`calculate_ns_grad2(ns')` returns the cached form computed from **that** evaluation's `nsgrad_i`, **that**
+evaluation's `f` and the **current** trial's `N`, `N'`; in every other history (fresh object, after
+`initialize_for_new_trial`, after an evaluation that raised) it raises. No stale cache is ever used silently. -/
+theorem c02_history_grad2 (opa : ℝ) (J : ℕ) (hJ : 0 < J) (ops : List (Op ℝ)) (hwt : ∀ op ∈ ops, WT J op)
+    (ns' : ℝ) :
+    match (ops.foldl absStep ⟨List.replicate J (0, 0), none⟩).ev with
+    | some (ns, f, Xs) =>
+        (run opa (init J) ops).grad2 ns'
+          = .ok (sumF (grad2Spec opa ns ns' f Xs (ops.foldl absStep ⟨List.replicate J (0, 0), none⟩).sizes))
+    | none => ∃ e, (run opa (init J) ops).grad2 ns' = .error e := by
+  have hrel := rel_run opa J hJ ops hwt (init J) ⟨List.replicate J (0, 0), none⟩ (rel_init opa J)
+  cases hev : (ops.foldl absStep ⟨List.replicate J (0, 0), none⟩).ev with
+  | none => exact grad2_of_rel_none opa J hJ _ _ hrel hev ns'
+  | some x =>
+    obtain ⟨ns, f, Xs⟩ := x
+    exact grad2_of_rel_some opa J _ _ hrel ns f Xs hev ns'
+
+open C02 in
+/-- … and at `ns' = ns`, in the stable regime, with the trial's `N' = len(X)`: the value returned after that history is
+the derivative of the ns-gradient the evaluation returned (`c02_multi_grad2` through the state machine). -/
+theorem c02_history_grad2_is_second_derivative (opa : ℝ) (h0 : 0 < opa) (J : ℕ) (hJ : 0 < J) (ops : List (Op ℝ))
+    (hwt : ∀ op ∈ ops, WT J op) (ns : ℝ) (f : List ℝ) (Xs : List (List ℝ))
+    (hev : (ops.foldl absStep ⟨List.replicate J (0, 0), none⟩).ev = some (ns, f, Xs))
+    (hsel : ∀ p ∈ List.zip Xs (ops.foldl absStep ⟨List.replicate J (0, 0), none⟩).sizes, p.2.2 = p.1.length)
+    (hok : ∀ p ∈ List.zip f (List.zipWith (fun X (sz : ℕ × ℕ) => (⟨sz.1, X, []⟩ : DS ℝ)) Xs
+        (ops.foldl absStep ⟨List.replicate J (0, 0), none⟩).sizes),
+      ns * p.1 < p.2.N ∧ ∀ X ∈ p.2.Xs, opa - 1 < ns * p.1 * X) :
+    ∃ g, (run opa (init J) ops).grad2 ns = .ok g ∧
+      HasDerivAt (fun n => multiGradNs opa n f (List.zipWith (fun X (sz : ℕ × ℕ) => (⟨sz.1, X, []⟩ : DS ℝ)) Xs
+        (ops.foldl absStep ⟨List.replicate J (0, 0), none⟩).sizes)) g ns := by
+  have h := c02_history_grad2 opa J hJ ops hwt ns
+  rw [hev] at h
+  refine ⟨_, h, ?_⟩
+  rw [grad2Spec_eq_multiNsGrad2 opa ns f Xs _ hsel]
+  exact c02_multi_grad2 opa h0 ns f _ hok
+
+-- non-vacuity: a history new trial → evaluate → grad2 is well-typed and ends in the `some` case
+example : (([Op.newTrial [(5, 2)], Op.evaluate 1 [1] [[0.1, 0.2]], Op.grad2 1] : List (Op ℝ)).foldl C02.absStep
+    ⟨List.replicate 1 (0, 0), none⟩).ev = some (1, [1], [[0.1, 0.2]]) := rfl
